@@ -81,7 +81,7 @@ func H_C02_lookup() {
 	}
 	nonEmpty := set && val != ""
 
-	form := verif.Choice("form", 7)
+	form := verif.Choice("form", 8)
 	var text, want string
 	wantErr := false
 	switch form {
@@ -100,7 +100,10 @@ func H_C02_lookup() {
 		if nonEmpty {
 			want = "alt"
 		} else if set {
-			return // "set but empty" with :+ is not pinned down by the statement
+			if defined[plRoot] != 2 {
+				return // a resolver that answers with an empty string: "set" or "unset" is not pinned down
+			}
+			want = "alt" // the setting exists in the configuration: it is set, although empty
 		}
 	case 3:
 		text = "${" + name + ":?custom message}"
@@ -118,6 +121,10 @@ func H_C02_lookup() {
 		} else {
 			want = "a}b-d"
 		}
+	case 7:
+		// the alternative operator on a name that is set to an object / list (it has no text form, but it is set)
+		text = "${other_obj:+alt}-${other_list:+alt}"
+		want = "alt-alt"
 	}
 	if (form == 0 || form == 4) && set && val == "" {
 		return // a plain reference to a set-but-empty value: empty text or "unset" is not pinned down
@@ -125,7 +132,10 @@ func H_C02_lookup() {
 	// the referencing setting is merged before or after the referenced one (late binding)
 	c := ucfg.New()
 	first := verif.Choice("merge-order", 2)
-	parts := []map[string]interface{}{{"v": text, "sub": map[string]interface{}{"w": text}}, mk(plRoot)}
+	root := mk(plRoot)
+	root["other_obj"] = map[string]interface{}{"k": "v"}
+	root["other_list"] = []interface{}{1, 2}
+	parts := []map[string]interface{}{{"v": text, "sub": map[string]interface{}{"w": text}, "lst": []interface{}{text, map[string]interface{}{"w": text}}}, root}
 	if first == 1 {
 		parts[0], parts[1] = parts[1], parts[0]
 	}
@@ -133,7 +143,21 @@ func H_C02_lookup() {
 	verif.Assert(c.Merge(parts[1], opts...) == nil, "C02/merge accepted")
 
 	label := func(s string) string { return "C02/" + s + "/form" + itoa(form) }
-	switch verif.Choice("read", 3) {
+	switch verif.Choice("read", 5) {
+	case 3, 4:
+		// the referencing setting lives inside a list (element / object in a list)
+		var got string
+		var err error
+		if verif.Choice("list-route", 2) == 0 {
+			got, err = c.String("lst", 0, opts...)
+		} else {
+			got, err = c.String("lst.1.w", -1, opts...)
+		}
+		if wantErr {
+			verif.Assert(err != nil, label("read inside a list fails when the reference cannot be resolved"))
+		} else {
+			verif.Assert(err == nil && got == want, label("reference inside a list resolves from the root of the merged config"))
+		}
 	case 0:
 		got, err := c.String("v", -1, opts...)
 		if wantErr {
